@@ -88,6 +88,8 @@ std::string show(bool v) { return v ? "t" : "f"; }
 template <class T> std::string show(const std::optional<T>& v) { return v ? "?" + show(*v) : std::string("null"); }
 template <class T, size_t N> std::string show(const std::array<T, N>& v) { std::string r = "["; for (auto& e : v) { r += show(e); r += ","; } return r + "]"; }
 template <class T> std::string show(const std::vector<T>& v) { std::string r = "["; for (auto& e : v) { r += show(e); r += ","; } return r + "]"; }
+template <class T> std::string show(const std::multimap<std::string, T>& v) { std::string r = "{{"; for (auto& [k, e] : v) { r += hexs(k) + "=" + show(e) + ","; } return r + "}}"; }
+std::string show(const std::chrono::time_point<std::chrono::system_clock, std::chrono::seconds>& v) { return "tp" + std::to_string(v.time_since_epoch().count()); }
 template <class T> std::string show(const std::map<std::string, T>& v) { std::string r = "{"; for (auto& [k, e] : v) { r += hexs(k) + "=" + show(e) + ","; } return r + "}"; }
 std::string show(const ShapeL& v) { return "(" + show(v.pre) + "," + show(v.a) + "," + show(v.mid) + "," + show(v.b) + "," + show(v.b2) + "," + show(v.post) + ")"; }
 std::string show(const InnerL& v) { return "(" + show(v.a) + "," + show(v.s) + ")"; }
@@ -137,14 +139,22 @@ Register l1("load.any", [](const Tokens& t) -> std::string {
 	opts.mismatchedTypesPolicy = t[5] == "skip" ? MismatchedTypesPolicy::Skip : MismatchedTypesPolicy::ThrowError;
 	const std::string bytes = parseBytes(t[6]);
 	const bool stream = t[2] == "stream";
+	// one allocation request far out of proportion to the document (a declared length that is trusted before the data arrives)
+	// is reported even when the call then ends normally or with a proper exception
+	allocWatchReset();
+	std::string answer;
 	try {
-		if (t[1] == "mp") return loadTarget<MsgPack::MsgPackArchive>(t[3], bytes, stream, opts);
-		if (t[1] == "csv") return loadTarget<Csv::CsvArchive>(t[3], bytes, stream, opts);
-		if (t[1] == "json") return loadTarget<Json::RapidJson::JsonArchive>(t[3], bytes, stream, opts);
-		if (t[1] == "xml") return loadTarget<Xml::PugiXml::XmlArchive>(t[3], bytes, stream, opts);
+		if (t[1] == "mp") answer = loadTarget<MsgPack::MsgPackArchive>(t[3], bytes, stream, opts);
+		else if (t[1] == "csv") answer = loadTarget<Csv::CsvArchive>(t[3], bytes, stream, opts);
+		else if (t[1] == "json") answer = loadTarget<Json::RapidJson::JsonArchive>(t[3], bytes, stream, opts);
+		else if (t[1] == "xml") answer = loadTarget<Xml::PugiXml::XmlArchive>(t[3], bytes, stream, opts);
+		else throw BadOp("archive");
 	}
 	catch (const BadOp&) { throw; }
-	catch (const std::exception& e) { return "exc:" + describeException(e); }
+	catch (const std::exception& e) { answer = "exc:" + describeException(e); }
+	const std::size_t limit = std::max<std::size_t>(8u << 20, bytes.size() * 4096);
+	if (allocWatchMax() > limit) answer += " BIGALLOC";
+	return answer;
 	throw BadOp("archive");
 });
 
@@ -200,6 +210,16 @@ void fill(std::mt19937& g, ChronoL& v) {
 	v.dns = nanoseconds(g() % 3 ? ns[g() % (sizeof ns / sizeof *ns)] : static_cast<long long>(g()) * 1000003LL);
 	v.tail = randInt(g);
 }
+// equal keys with different values: their relative order is part of the value (std::multimap keeps insertion order among equals)
+template <class T> void fill(std::mt19937& g, std::multimap<std::string, T>& v) {
+	v.clear();
+	for (unsigned i = 0, n = g() % 7; i < n; ++i) { T e{}; fill(g, e); v.emplace("k" + std::to_string(g() % 3), e); }
+}
+void fill(std::mt19937& g, std::chrono::time_point<std::chrono::system_clock, std::chrono::seconds>& v) {
+	v = std::chrono::time_point<std::chrono::system_clock, std::chrono::seconds>(std::chrono::seconds(randSeconds(g)));
+}
+// long sequences of timestamps: in a stream their ext headers fall on every offset relative to the 256-byte cache
+template <class T> void fillLong(std::mt19937& g, std::vector<T>& v) { v.resize(g() % 140); for (auto& e : v) fill(g, e); }
 void fill(std::mt19937& g, ShapeL& v) { fill(g, v.pre); fill(g, v.a); fill(g, v.mid); fill(g, v.b); fill(g, v.b2); fill(g, v.post); }
 void fill(std::mt19937& g, InnerL& v) { fill(g, v.a); fill(g, v.s); }
 void fill(std::mt19937& g, OuterL& v) { fill(g, v.id); fill(g, v.name); fill(g, v.nums); fill(g, v.inner); fill(g, v.m); fill(g, v.opt); fill(g, v.flag); fill(g, v.d); }
@@ -256,6 +276,17 @@ std::string rtTarget(const std::string& target, bool stream, unsigned seed) {
 	if (target == "rows256") return roundTripAligned<TArchive>(stream, seed);
 	if (target == "vchrono") return roundTrip<TArchive, std::vector<ChronoL>>(stream, seed);
 	if (target == "vshape") return roundTrip<TArchive, std::vector<ShapeL>>(stream, seed);
+	if constexpr (!isCsv) if (target == "vtp") {
+		using TP = std::chrono::time_point<std::chrono::system_clock, std::chrono::seconds>;
+		std::mt19937 g(seed); std::vector<TP> value; fillLong(g, value);
+		std::string saved;
+		try { if (stream) { std::ostringstream os; SaveObject<TArchive>(value, os); saved = os.str(); } else SaveObject<TArchive>(value, saved); }
+		catch (const std::exception& e) { return "exc-save:" + describeException(e); }
+		std::vector<TP> loaded;
+		try { if (stream) { std::istringstream is(saved); LoadObject<TArchive>(loaded, is); } else LoadObject<TArchive>(loaded, saved); }
+		catch (const std::exception& e) { return "exc-load:" + describeException(e) + " " + std::to_string(saved.size()) + " " + std::to_string(value.size()); }
+		return loaded == value ? "same" : "differ " + std::to_string(saved.size()) + " " + std::to_string(value.size());
+	}
 	constexpr bool isXml = std::is_same_v<TArchive, Xml::PugiXml::XmlArchive>;
 	if constexpr (!isCsv && !isXml) {
 		if (target == "i32") return roundTrip<TArchive, int>(stream, seed);
@@ -269,6 +300,7 @@ std::string rtTarget(const std::string& target, bool stream, unsigned seed) {
 		if (target == "outer") return roundTrip<TArchive, OuterL>(stream, seed);
 		if (target == "chrono") return roundTrip<TArchive, ChronoL>(stream, seed);
 		if (target == "shape") return roundTrip<TArchive, ShapeL>(stream, seed);
+		if (target == "mmsi") return roundTrip<TArchive, std::multimap<std::string, int>>(stream, seed);
 		if (target == "vouter") return roundTrip<TArchive, std::vector<OuterL>>(stream, seed);
 	}
 	throw BadOp("target");
